@@ -1,5 +1,5 @@
 (** * C07 — caching, closing documents and cache eviction are invisible.  Statements only. *)
-From PLS Require Import Check.C07 Proofs.Basics Proofs.CacheValid.
+From PLS Require Import Check.C07 Proofs.Basics Proofs.CacheValid Proofs.ImportClosure Proofs.WarmCold.
 
 (** (1)+(2) no memo entry survives a state change: after ANY analysis (clean or fresh,
     parsable or not) and after a close, every entry of the available-fixtures and
@@ -42,14 +42,35 @@ Theorem C07_hit_returns_what_the_miss_computed :
 Proof. exact available_hit_same. Qed.
 Print Assumptions C07_hit_returns_what_the_miss_computed.
 
-(** Full-strength first sentence — for every interleaving of operations and queries,
-    every answer equals the cold answer — is proved above for the first query after each
-    state change and for repeated per-file views; what is NOT proved (partial): that a
-    LATER query in the same state, missing at top level, is unaffected by entries that
-    earlier queries stored for nested modules (requires the closure characterisation of
-    [get_imported_fixtures]; validated by the warm-vs-cold correspondence runs).
+(** (5) what [get_imported_fixtures] computes, with or without memo entries: exactly the
+    names supplied along the closure of the resolved star-import graph (any graph: cycles,
+    diamonds, self imports), provided every current memo entry holds such a closure *)
+Theorem C07_imported_fixtures_are_the_import_closure :
+  forall dk roots s, memo_ok dk roots s ->
+    forall file n, In n (imported dk roots s file) <-> Cl dk roots s file n.
+Proof. exact imported_is_closure. Qed.
+Print Assumptions C07_imported_fixtures_are_the_import_closure.
 
-    Second sentence (closing an unmodified document never changes answers) is FALSE of
+(** (6) Full-strength first sentence: in EVERY state reached from the empty index by analyses
+    (clean or scan-style, parsable or not), closes and queries (go-to-definition, resolution,
+    per-file view, imported names, references) in ANY interleaving — whatever memo entries
+    the earlier queries left behind, for nested modules too — resolution with any filter and
+    the import test answer exactly as with all memos cleared, and the per-file view denotes
+    for every name the definition the cold view denotes (both views have one entry per
+    name) *)
+Theorem C07_every_answer_equals_the_cold_answer :
+  forall dk roots s, reached dk roots s ->
+    (forall flt F n, closest_with dk roots s flt F n = closest_with dk roots (cold s) flt F n) /\
+    (forall n file, is_imported dk roots s n file = is_imported dk roots (cold s) n file) /\
+    (forall F n, lookup_av n (available dk roots s F) = lookup_av n (available_cold dk roots (cold s) F)) /\
+    (forall F, NoDup (map d_name (available_cold dk roots (cold s) F))).
+Proof. exact warm_equals_cold_everywhere. Qed.
+Print Assumptions C07_every_answer_equals_the_cold_answer.
+
+(** not covered by (6): the cycle memo (its own version test, C16/C19) and [mark_plugin]
+    (it changes no answer by itself; the plugin flag is read at analysis time).
+
+    Second sentence of the property (closing an unmodified document never changes answers) is FALSE of
     the faithful model: *)
 Definition hp := ["helpers.py"; "vq"].
 Definition cf := ["conftest.py"; "vq"].
@@ -72,3 +93,21 @@ Print Assumptions C07_refuted_close_changes_the_view.
 
 Example C07_hypotheses_satisfiable : bounded scanned /\ no_current scanned.
 Proof. split; split; intros; cbn in *; contradiction. Qed.
+
+(** non-vacuity of (6): a reached state in which both memos hold CURRENT entries (the
+    per-file view of the test module was asked once after the scan) *)
+Definition warm_state := post_aq7 on_disk [] scanned (AQAvail tm).
+Example C07_reached_state_with_current_entries :
+  reached on_disk [] warm_state /\ av_hit warm_state tm <> None /\
+  (exists c names, content on_disk warm_state cf = Some c /\ imp_hit warm_state cf c = Some names /\ names = ["db"]).
+Proof.
+  split; [apply r_query; repeat apply r_analyze; apply r_init|].
+  split; [vm_compute; discriminate|]. eexists. eexists. split; [vm_compute; reflexivity|]. split; vm_compute; reflexivity.
+Qed.
+
+Check C07_every_answer_equals_the_cold_answer :
+  forall dk roots s, reached dk roots s ->
+    (forall flt F n, closest_with dk roots s flt F n = closest_with dk roots (cold s) flt F n) /\
+    (forall n file, is_imported dk roots s n file = is_imported dk roots (cold s) n file) /\
+    (forall F n, lookup_av n (available dk roots s F) = lookup_av n (available_cold dk roots (cold s) F)) /\
+    (forall F, NoDup (map d_name (available_cold dk roots (cold s) F))).
